@@ -107,6 +107,13 @@ class TzInterp:
             d = self.repo.resolve(self.mod, e)
             if d and d.endswith('ZERO_TIMESPAN'):
                 return Span((0, 0, 0, 0))
+            tgt = self.repo.lookup(d) if d else None
+            if isinstance(tgt, tuple) and tgt[0] == 'const' and \
+                    tgt[1] is self.mod and not isinstance(
+                        tgt[2], ast.Name):
+                # a module-level constant: what its defining expression
+                # denotes
+                return self.ev(tgt[2], {})
             return Unknown('name ' + e.id)
         if isinstance(e, ast.BoolOp) and isinstance(e.op, ast.Or) and \
                 len(e.values) == 2:
@@ -435,11 +442,21 @@ def check_naive_safety(repo, rep, uni, tz):
     rep.floor('datetime operator operands', m, 10)
 
 
-def const_eval(e):
+def const_eval(e, repo=None, mod=None, depth=0):
     if isinstance(e, ast.Constant) and isinstance(e.value, (int, float)):
         return Fraction(e.value).limit_denominator(10 ** 12)
+    if isinstance(e, ast.Name) and repo is not None and depth < 5:
+        d = repo.resolve(mod, e)
+        tgt = repo.lookup(d) if d else None
+        if isinstance(tgt, tuple) and tgt[0] == 'const':
+            return const_eval(tgt[2], repo, tgt[1], depth + 1)
+        return None
+    if isinstance(e, ast.UnaryOp) and isinstance(e.op, ast.USub):
+        v = const_eval(e.operand, repo, mod, depth)
+        return None if v is None else -v
     if isinstance(e, ast.BinOp):
-        a, b = const_eval(e.left), const_eval(e.right)
+        a, b = const_eval(e.left, repo, mod, depth), const_eval(
+            e.right, repo, mod, depth)
         if a is None or b is None:
             return None
         if isinstance(e.op, ast.Mult):
@@ -467,10 +484,10 @@ def check_units(repo, rep):
             lin(e.left, k)
             lin(e.right, k)
         elif isinstance(e, ast.BinOp) and isinstance(e.op, ast.Mult):
-            c = const_eval(e.left)
+            c = const_eval(e.left, repo, mod)
             other = e.right
             if c is None:
-                c = const_eval(e.right)
+                c = const_eval(e.right, repo, mod)
                 other = e.left
             if c is None:
                 coef['?'] = 1
@@ -501,10 +518,11 @@ def check_units(repo, rep):
                 isinstance(v.left, ast.Call) and isinstance(
                     v.left.func, ast.Name) and \
                 v.left.func.id == 'microseconds':
-            got = const_eval(v.right)
+            got = const_eval(v.right, repo, mod)
             ok = got == c
         elif isinstance(v, ast.BinOp) and isinstance(v.op, ast.Mult):
-            k = const_eval(v.right) or const_eval(v.left)
+            k = const_eval(v.right, repo, mod) or const_eval(
+                v.left, repo, mod)
             got = 1 / k if k else None
             ok = got == c
         rep.ob('R20c', f.key, ok,
